@@ -1,0 +1,112 @@
+//go:build verif
+
+package concurrent
+
+import (
+	"math/rand/v2"
+	"runtime"
+	"sync/atomic"
+	"time"
+)
+
+// Verification hook (build tag `verif` only): a seeded perturbation of the
+// schedule of Foreach.  With seed 0 (the default) Foreach behaves exactly as
+// without the tag.  With another seed every Foreach call
+//
+//   - starts the goroutines in a seeded permutation of the collection order
+//     (for three seeds out of four; otherwise the original order is kept), and
+//   - yields (runtime.Gosched) or sleeps for a short seeded time before and
+//     after f(element), with an occasional long stall so that one element
+//     starts after / finishes after most of the others.
+//
+// The hook changes timing and start order only.  It adds no synchronisation
+// between the goroutines after f has started (the only shared operation is an
+// atomic ticket taken *before* f(element)), so it cannot hide a data race
+// between two calls of f from the race detector.
+var (
+	verifSeed  atomic.Uint64
+	verifCalls atomic.Uint64
+)
+
+// SetVerifSchedule selects the perturbation used by all following Foreach
+// calls; 0 switches the perturbation off.  The per-call counter is reset so
+// that the same seed produces the same plan for the same sequence of calls.
+func SetVerifSchedule(seed int64) {
+	verifSeed.Store(uint64(seed))
+	verifCalls.Store(0)
+}
+
+// a delay step: 0 = nothing, 1..9 = that many runtime.Gosched() calls,
+// >= 10 = sleep for that many microseconds
+type verifDelay uint32
+
+func (d verifDelay) do() {
+	switch {
+	case d == 0:
+	case d < 10:
+		for range int(d) {
+			runtime.Gosched()
+		}
+	default:
+		time.Sleep(time.Duration(d) * time.Microsecond)
+	}
+}
+
+func verifDrawDelay(rng *rand.Rand) verifDelay {
+	switch rng.IntN(8) {
+	case 0, 1:
+		return 0
+	case 2, 3, 4:
+		return verifDelay(1 + rng.IntN(4))
+	case 5, 6:
+		return verifDelay(10 + rng.IntN(120))
+	default:
+		return verifDelay(150 + rng.IntN(450))
+	}
+}
+
+func verifSchedule[E any](collection []E, f func(E)) ([]E, func(E)) {
+	seed := verifSeed.Load()
+	if seed == 0 || len(collection) == 0 {
+		return collection, f
+	}
+	call := verifCalls.Add(1)
+	rng := rand.New(rand.NewPCG(seed, call))
+
+	n := len(collection)
+	order := make([]E, n)
+	copy(order, collection)
+	switch rng.IntN(8) {
+	case 0, 1:
+		// original order, only the timing is perturbed
+	case 2:
+		for i, j := 0, n-1; i < j; i, j = i+1, j-1 {
+			order[i], order[j] = order[j], order[i]
+		}
+	default:
+		rng.Shuffle(n, func(i, j int) { order[i], order[j] = order[j], order[i] })
+	}
+
+	before := make([]verifDelay, n)
+	after := make([]verifDelay, n)
+	for i := range n {
+		before[i] = verifDrawDelay(rng)
+		after[i] = verifDrawDelay(rng)
+	}
+	// occasional long stalls: one goroutine begins late, one holds its slot long
+	if rng.IntN(2) == 0 {
+		before[rng.IntN(n)] = verifDelay(1000 + rng.IntN(2000))
+	}
+	if rng.IntN(4) == 0 {
+		after[rng.IntN(n)] = verifDelay(1000 + rng.IntN(2000))
+	}
+
+	var ticket atomic.Int64
+	wrapped := func(element E) {
+		i := int(ticket.Add(1)-1) % n
+		before[i].do()
+		f(element)
+		after[i].do()
+	}
+	return order, wrapped
+}
